@@ -304,7 +304,7 @@ func (p *Parent) jobTimeout() time.Duration {
 	if p.Tier == "thorough" {
 		return 90 * time.Minute
 	}
-	return 15 * time.Minute
+	return 6 * time.Minute
 }
 
 // runJob runs one worker; on a process death it attributes the death through the
